@@ -42,3 +42,32 @@ func (it *It) BadSave(w io.Writer) {
 		panic(err)
 	}
 }
+
+// READFULL
+func BadHeaderSingleRead(r io.Reader) [8]byte {
+	var h [8]byte
+	if _, err := r.Read(h[:]); err != nil {
+		panic(err)
+	}
+	return h
+}
+
+func GoodHeaderReadFull(r io.Reader) [8]byte {
+	var h [8]byte
+	if _, err := io.ReadFull(r, h[:]); err != nil {
+		panic(err)
+	}
+	return h
+}
+
+func GoodHeaderLoop(r io.Reader) [8]byte {
+	var h [8]byte
+	for got := 0; got < len(h); {
+		n, err := r.Read(h[got:])
+		if err != nil {
+			panic(err)
+		}
+		got += n
+	}
+	return h
+}
